@@ -39,7 +39,7 @@ fn main() {
     let (mut req, mut imp, mut ora, mut probe) = (mk("req.txt"), mk("impl.txt"), mk("oracle.txt"), mk("probe.rs"));
     let mut rng = Rng::new(seed);
     let mut n = 0usize;
-    writeln!(probe, "#![allow(dead_code, unused)]\nmod verif_harness {{ pub mod userty {{ pub struct Foo(pub u32); pub mod deep {{ pub struct Bar<T>(pub T); }} }} }}\nuse crate::verif_harness as krate;").unwrap();
+    writeln!(probe, "#![allow(dead_code, unused)]\nmod verif_harness {{ pub mod userty {{ pub struct Foo(pub u32); pub mod deep {{ pub struct Bar<T>(pub T); }} pub mod vec {{ pub struct Vec<T>(pub T, pub u8); }} }} pub mod vec {{ pub struct Vec<T>(pub T, pub u8); }} pub mod string {{ pub struct String(pub u8); }} pub mod boxed {{ pub struct Box<T>(pub T, pub u8); }} pub mod option {{ pub struct Option<T>(pub T, pub u8); }} pub mod result {{ pub struct Result<T>(pub T, pub u8); }} pub mod alloc {{ pub mod vec {{ pub struct Vec<T>(pub T, pub u8); }} }} }}\nuse crate::verif_harness as krate;").unwrap();
     verif_harness::catalogue::each(&mut |src, full, host, size, align| {
         n += 1;
         // the compiler's spelling uses the crate name of the harness; the source spelling uses `crate::`
